@@ -746,6 +746,14 @@ func (c *FnCtx) mapLen(st *State, ref Term) Term {
 	return Ite(Eq(ref, IntLit(0)), IntLit(0), l)
 }
 
+// mapLenWitness: a map of positive length has a key (named by a fresh constant for this read).
+func (c *FnCtx) mapLenWitness(st *State, m *types.Map, ref Term) {
+	dom, ks := c.mapDom(st, m, ref)
+	ml := c.heapGet(st, "maplen", SArr(SInt, SInt))
+	w := c.vc.Fresh("mapwit", ks)
+	c.vc.Assert(Implies(And(Not(Eq(ref, IntLit(0))), App(SBool, ">", Select(ml, ref, SInt), IntLit(0))), Select(dom, w, SBool)))
+}
+
 func (c *FnCtx) mapDom(st *State, m *types.Map, ref Term) (Term, Sort) {
 	ks := c.scalarSort(m.Key())
 	if ks == "" {
@@ -931,6 +939,7 @@ func (c *FnCtx) rangeNext(fr *Frame, st *State, x *ssa.Next) SV {
 		} else {
 			s = c.vc.Fresh("s", SStr)
 		}
+		c.vc.Assert(App(SBool, ">=", pos, IntLit(0))) // the position starts at 0 and only grows
 		ok := App(SBool, "<", pos, c.strLen(s))
 		adv := c.vc.Fresh("adv", SInt)
 		c.vc.Assert(And(App(SBool, ">=", adv, IntLit(1)), App(SBool, "<=", adv, IntLit(4))))
